@@ -355,6 +355,73 @@ let keys_file which file =
    with End_of_file -> ());
   close_in ic
 
+
+(* ---------- C12: numeric cases ---------- *)
+let z_of_string (s : string) : z =
+  let neg = String.length s > 0 && s.[0] = '-' in
+  let body = if neg then String.sub s 1 (String.length s - 1) else s in
+  let u = Int64.of_string ("0u" ^ body) in
+  if Int64.equal u 0L then Z0 else if neg then Zneg (pos_of_int64 u) else Zpos (pos_of_int64 u)
+
+let string_of_z = function
+  | Z0 -> "0"
+  | Zpos p -> Printf.sprintf "%Lu" (int64_of_pos p)
+  | Zneg p -> "-" ^ Printf.sprintf "%Lu" (int64_of_pos p)
+
+let nty_of = function
+  | "u8" -> U8 | "u16" -> U16 | "u32" -> U32 | "u64" -> U64 | "usize" -> Usize
+  | "i8" -> I8 | "i16" -> I16 | "i32" -> I32 | "i64" -> I64 | "isize" -> Isize
+  | "bool" -> TBool | "ptr" -> TPtr
+  | s -> raise (Bad ("type " ^ s))
+
+let nrmw_of = function
+  | "add" -> FAdd | "sub" -> FSub | "and" -> FAnd | "nand" -> FNand | "or" -> FOr | "xor" -> FXor
+  | "max" -> FMax | "min" -> FMin
+  | s -> raise (Bad ("nrmw " ^ s))
+
+let nop_of (s : string) : nop =
+  match words s with
+  | [ "ld"; _ ] -> NLoad
+  | [ "st"; v; _ ] -> NStore (z_of_string v)
+  | [ "swap"; v; _ ] -> NSwap (z_of_string v)
+  | [ "rmw"; f; v; _ ] -> NRmw (nrmw_of f, z_of_string v)
+  | [ "cas"; e; n; _; _ ] -> NCas (z_of_string e, z_of_string n)
+  | [ "casw"; e; n; _; _ ] -> NCasWeak (z_of_string e, z_of_string n)
+  | [ "cswap"; e; n; _ ] -> NCompareAndSwap (z_of_string e, z_of_string n)
+  | [ "fu"; f; v; _; _ ] -> NFetchUpdate (nrmw_of f, z_of_string v)
+  | [ "fun"; _; _ ] -> NFetchUpdateNone
+  | [ "wm"; v ] -> NWithMut (z_of_string v)
+  | [ "usl" ] -> NUnsyncLoad
+  | [ "ii" ] -> NIntoInner
+  | _ -> raise (Bad ("num op `" ^ s ^ "`"))
+
+let nres_str = function
+  | NRUnit -> "-" | NRVal v -> string_of_z v | NROk v -> "ok " ^ string_of_z v | NRErr v -> "err " ^ string_of_z v
+
+let num_file file =
+  let ic = open_in file in
+  (try
+     while true do
+       let line = String.trim (input_line ic) in
+       if line <> "" && line.[0] <> '#' then begin
+         match List.map String.trim (String.split_on_char '|' line) with
+         | [ id; ty; init; ops ] ->
+             let t = nty_of ty in
+             let i = z_of_string init in
+             let ol = List.filter_map (fun o -> if String.trim o = "" then None else Some (nop_of o)) (String.split_on_char ';' ops) in
+             let wf = in_range t i && List.for_all (op_ok t) ol in
+             let show (rs, fin) =
+               let l = List.map nres_str rs in
+               let ends_ii = match List.rev ol with NIntoInner :: _ -> true | _ -> false in
+               String.concat "," (if ends_ii then l else l @ [ "final " ^ string_of_z fin ]) in
+             Printf.printf "NUM %s | loom %s | std %s%s\n" id (show (loom_run t i ol)) (show (std_run t i ol))
+               (if wf then "" else " | NOT-WELL-FORMED")
+         | _ -> raise (Bad "num case")
+       end
+     done
+   with End_of_file -> ());
+  close_in ic
+
 (* ---------- replay mode ---------- *)
 (* parse a dump back into a path *)
 let tstat_of_char = function
@@ -517,6 +584,7 @@ let () =
   match strip args with
   | [ _; "run"; f ] -> run_file f
   | [ _; "replay"; f ] -> replay_file f
+  | [ _; "num"; f ] -> num_file f
   | [ _; "ref"; f ] -> keys_file (`Ref false) f
   | [ _; "refw"; f ] -> keys_file (`Ref true) f
   | [ _; "keys"; f ] -> keys_file `Model f
